@@ -31,6 +31,7 @@ for id in $ids; do
   n=$(grep -c '^VIOLATION' $SCRATCH/$id.log)
   if [ $rc -eq 1 ] && [ $n -gt 0 ]; then echo "$id: reported by $p $tier ($n violations, $((e-s))s)"; else echo "$id: NOT REPORTED by $p $tier (rc=$rc)"; bad=1; fi
 done
+[ -n "$KEEP" ] && { echo "kept $SCRATCH (patched with the last change); remove with: git -C /repo worktree remove --force $SCRATCH/repo; rm -rf $SCRATCH"; exit $bad; }
 ( cd $SCRATCH/repo && git checkout -q -- . )
 git -C /repo worktree remove --force $SCRATCH/repo
 rm -rf $SCRATCH
